@@ -400,3 +400,29 @@ def import_nixio():
     if not os.path.abspath(nixio.__file__).startswith(os.path.abspath(REPO)):
         raise MachineryError("nixio imported from %s, not from %s" % (nixio.__file__, REPO))
     return nixio
+
+
+
+class Budget:
+    """
+    Wall-clock budget of one export run (thorough tier; VERIF_RUN_BUDGET seconds, 0 = none): when the replays have
+    used it up, only every 8th further transition is replayed, and none at all after twice the budget - TLC itself
+    always runs to the end, so the model-checking part stays complete.  What was thinned out is counted.
+    """
+    def __init__(self):
+        self.limit = float(os.environ.get("VERIF_RUN_BUDGET", "0") or 0)
+        self.t0 = time.time()
+        self.n = 0
+        self.skipped = 0
+
+    def skip(self):
+        if not self.limit:
+            return False
+        el = time.time() - self.t0
+        if el <= self.limit:
+            return False
+        self.n += 1
+        if el > 2 * self.limit or self.n % 8:
+            self.skipped += 1
+            return True
+        return False
